@@ -73,6 +73,9 @@ func genOffsets(c *cf.Case, r *cf.Rng, prop string) {
 		if r.Intn(3) != 0 {
 			op.ThinkUs = int64(r.Pick(50, 500, 2000, 10000, 30000))
 		}
+		if op.Op != "next" && r.Intn(5) == 0 {
+			op.Arg = "on-commit-response"
+		}
 		c.Workload = append(c.Workload, op)
 	}
 	if !cfg.AutoCommit {
